@@ -696,3 +696,54 @@ theorem trace_conj2 (D : Nat) (mat matc : Nat → Nat → Nat → Nat → K) (m1
 
 end local2
 end SFV.Fock
+
+/-! ### Hermiticity is preserved by `ρ ↦ U ρ U†` (C07) -/
+namespace SFV.Fock
+open Finset
+
+section herm
+variable {K : Type} [CommSemiring K]
+
+/-- exchange the row and column axis of every mode -/
+def flipAx (a : Nat) : Nat := if a % 2 = 0 then a + 1 else a - 1
+
+/-- `ρ` is Hermitian w.r.t. the conjugation `cj`: `ρ[j₀,i₀,j₁,i₁,…] = conj ρ[i₀,j₀,i₁,j₁,…]` -/
+def Herm (cj : K →+* K) (ρ : Tens K) : Prop := ∀ idx, ρ (fun a => idx (flipAx a)) = cj (ρ idx)
+
+theorem flipAx_even (m : Nat) : flipAx (2 * m) = 2 * m + 1 := by unfold flipAx; rw [if_pos (by omega)]
+theorem flipAx_odd (m : Nat) : flipAx (2 * m + 1) = 2 * m := by unfold flipAx; rw [if_neg (by omega)]; omega
+theorem flipAx_flipAx (a : Nat) : flipAx (flipAx a) = a := by
+  unfold flipAx; split <;> split <;> omega
+
+theorem flip_upd2 (idx : Idx) (m a b : Nat) :
+    (fun x => upd (upd idx (2 * m) b) (2 * m + 1) a (flipAx x)) =
+      upd (upd (fun x => idx (flipAx x)) (2 * m) a) (2 * m + 1) b := by
+  funext x
+  simp only [upd]
+  by_cases h1 : x = 2 * m + 1
+  · subst h1; rw [flipAx_odd]; simp
+  · by_cases h2 : x = 2 * m
+    · subst h2; rw [flipAx_even]; simp
+    · have e1 : flipAx x ≠ 2 * m + 1 := by
+        intro h; have := congrArg flipAx h; rw [flipAx_flipAx, flipAx_odd] at this; exact h2 this
+      have e2 : flipAx x ≠ 2 * m := by
+        intro h; have := congrArg flipAx h; rw [flipAx_flipAx, flipAx_even] at this; exact h1 this
+      simp [h1, h2, e1, e2]
+
+/-- **Hermiticity is preserved** by a one-mode `ρ ↦ U ρ U†` at any position, for any conjugation
+that is an involutive ring homomorphism -/
+theorem herm_conj1 (cj : K →+* K) (hinv : ∀ x, cj (cj x) = x) (D : Nat) (mat : Nat → Nat → K) (m : Nat)
+    (ρ : Tens K) (hρ : Herm cj ρ) :
+    Herm cj (applyAt1 D (fun v b => cj (mat v b)) (2 * m + 1) (applyAt1 D mat (2 * m) ρ)) := by
+  intro idx
+  rw [conj1_entry, conj1_entry]
+  simp only [flipAx_even, flipAx_odd, map_sum, map_mul, hinv]
+  rw [Finset.sum_comm]
+  refine Finset.sum_congr rfl fun a _ => Finset.sum_congr rfl fun b _ => ?_
+  have := hρ (upd (upd idx (2 * m) b) (2 * m + 1) a)
+  rw [flip_upd2 idx m a b] at this
+  rw [this]
+  ring
+
+end herm
+end SFV.Fock
